@@ -901,6 +901,37 @@ def replay_known(ctx):
     return n
 
 
+def run_shards3(ctx, shards, timeout=900):
+    """common.run_shards with a pool of exactly 3 shard compilers working through the whole list (no rounds)"""
+    from concurrent.futures import ThreadPoolExecutor
+    paths = []
+    for name, src in shards:
+        p = os.path.join(ctx.gen, "cases_%s.v" % name)
+        with open(p, "w") as f:
+            f.write(src)
+        paths.append((name, p))
+
+    def one(np_):
+        name, p = np_
+        return name, common.coqc_file(ctx.prop, p, timeout=timeout)
+    res = {}
+    with ThreadPoolExecutor(max_workers=3) as ex:
+        # largest shards first: the pool then finishes evenly
+        for name, r in ex.map(one, sorted(paths, key=lambda np_: -os.path.getsize(np_[1]))):
+            res[name] = r
+    for name, p in paths:
+        for ext in (".vo", ".vok", ".vos", ".glob"):
+            try:
+                os.remove(p[:-2] + ext)
+            except OSError:
+                pass
+        try:
+            os.remove(os.path.join(os.path.dirname(p), "." + os.path.basename(p)[:-2] + ".aux"))
+        except OSError:
+            pass
+    return res
+
+
 def run(ctx):
     t0 = time.time()
     torch.set_num_threads(1)
@@ -938,9 +969,7 @@ def run(ctx):
         all_cases, cases = cases, [cs for cs in cases if cs["lit"] is not None]
         for i in range(0, len(cases), SH):
             shards.append(("c01_%d" % (i // SH), shard_src(cases[i:i + SH])))
-        res = {}
-        for i in range(0, len(shards), 3):          # at most 3 shard compilers at a time
-            res.update(common.run_shards(ctx, shards[i:i + 3]))
+        res = run_shards3(ctx, shards)
         for si, (name, _) in enumerate(shards):
             rc, out = res[name]
             bad = common.parse_coq_list_of_nat(out) if rc == 0 else None
